@@ -117,7 +117,12 @@ def run_case(a):
         if path == "cli-flags-over-config":
             # the configuration file names ANOTHER output directory (with foreign files in it); the flags name the real one, so
             # the configured output directory is the flags' (flag > file) and the file's directory must stay untouched
-            common.write_tree(os.path.join(root, "app/decoy_out"), [("types.ts", "// foreign: not the configured directory"), ("index.ts", "// foreign"), ("notes.md", "x")])
+            common.write_tree(os.path.join(root, "app/decoy_out"), [("types.ts", "// foreign: not the configured directory"), ("index.ts", "// foreign"), ("notes.md", "x"),
+                                                                    (".typecache", '{"version":1,"note":"the record of a run that had this directory as its output"}')])
+        if layout != "default":
+            # the directory the built-in defaults name holds the record of an earlier run; this run's output directory is another one
+            common.write_tree(os.path.join(root, "app/src/generated"), [(".typecache", '{"version":1,"note":"left by an earlier run with the default output path"}'), ("types.ts", "// earlier run")])
+        forced_later = idx % 3 == 1
         steps = rnd.randint(2, 3)
         # half of the scenarios keep sources and settings as they are between runs: the later runs are then answered from the cache,
         # which is a code path of its own (it, too, has only the tool's files to touch)
@@ -152,6 +157,8 @@ def run_case(a):
                     json.dump({"productName": "x", "plugins": {"typegen": {"projectPath": "./src-tauri", "outputPath": "./decoy_out", "validationLibrary": other}}},
                               open(os.path.join(root, "app/tauri.conf.json"), "w"))
                     argv = [cli, "tauri-typegen", "generate", "-p", "./src-tauri", "-o", spelled_out, "-v", mode]
+                if forced_later and step >= 1:
+                    argv.append("--force")
             elif path == "init":
                 cfgrel = "app/src-tauri/tauri.conf.json"
                 if not os.path.exists(os.path.join(root, cfgrel)):
@@ -180,6 +187,8 @@ def run_case(a):
                 cfgrel = None
                 proj.write_tauri_conf(cwd, os.path.relpath(src, cwd), os.path.relpath(os.path.join(root, outrel), cwd), mode, {"visualizeDeps": step == 1 and vary_cfg})
                 argv = [drv, "build"]
+            if path in ("cli", "cli-rel", "cli-rel-deep") and forced_later and step >= 1:
+                argv.append("--force")
             before = fsmon.snapshot(root)
             st["paths_snapshotted"] += len(before)
             r, ev = fsmon.run_traced(argv, cwd=cwd, hash_seed=seed % 500 + step)
